@@ -196,6 +196,28 @@ CHECKS = {
             "A crash is os._exit at the failpoint (nothing buffered is flushed); torn writes keep the first b bytes; the machine itself does not lose renamed files (no fsync modelling).",
             "crash-point enumeration with forked children + offline history checker (exactly-once ids, durable + new)",
             "DESIGN.md §5 C07"),
+    "C02": ("exploration",
+            "For generated (fft, cp, used) configurations incl. odd FFT sizes and the forced extremes, the emitted signal is checked for "
+            "length, bit-exact prefix copies, the closed-form used-subcarrier set and an empty DC/guard band through an independent DFT of "
+            "every symbol body; demodulate(modulate(x)) must return x followed by zeros for ragged input lengths; invalid parameters must "
+            "be refused.  The channel part sends the signal through real TdlChannel objects with a zero-Doppler Jakes generator (1-6 "
+            "taps, sorted / unsorted / colliding delays, memory in {0,1,cp-1,cp}, memory = cp = fft forced) and compares "
+            "equalize_data(demodulate(r), reported impulse response) with the input, with a tolerance scaled by max|H|/min|H| of the "
+            "oracle's own DFT of the reported taps.",
+            "Ill-conditioned channels (min|H| < 1e-6 max|H| on the used subcarriers) are tallied, not decided; SISO only.",
+            "signal-structure oracle (independent DFT) + end-to-end equalisation check over generated configurations",
+            "DESIGN.md §5 C02"),
+    "C03": ("exploration",
+            "Single-link (TdlChannel SISO/MIMO, SuChannel with/without path loss, SuMimoChannel) and multi-user (MuChannel, MuMimoChannel "
+            "with path-loss matrices) objects are driven through histories of 1-6 transmissions mixing time- and frequency-domain calls, "
+            "direction switches and path-loss changes; after EVERY transmission the impulse response reported for it is read back and "
+            "the oracle recomputes the output from it by a direct tap loop (time-varying convolution, length input+memory) or by a "
+            "defining-sum DFT per block for every subcarrier selection (None, index arrays, lists, slices with steps and open ends); "
+            "multi-user outputs are the sum of the per-link oracles; linearity is checked on time-invariant channels; discretisation is "
+            "checked against an independent unique/round/merge computation (COST259 and random profiles, single-tap profiles included).",
+            "Frequency-domain oracle restricted to channel memory < fft size; tap sample index = input sample index.",
+            "oracle recomputed from the reported impulse response after each transmission of generated histories",
+            "DESIGN.md §5 C03"),
 }
 
 PENDING_REASON = "check not built yet in this session (design in DESIGN.md §5); will be claimed once its monitors run clean on the unchanged tree"
